@@ -254,6 +254,14 @@ def run_shard(cfg, prop):
     return acc
 
 
+def shrink_candidates(case):
+    """smaller molecules (same seed / forced targets); a recorded choice script is dropped with the first reduction"""
+    from ..shrink import mol_candidates
+    for ast, text in mol_candidates(case["ast"]):
+        if case.get("script") is None:
+            yield {**case, "ast": ast, "text": text}
+
+
 def replay(case, prop):
     acc = Acc()
     m = Mol.from_json(case["ast"])
